@@ -468,6 +468,24 @@ fn c04_frame(ctx: &mut Ctx, rng: &mut Rng, f: &[u8], thorough: bool, label: &str
         }
         bits::flip_bit(&mut g, a);
     }
+    // the damaged frame with something behind it in the same slice (zero padding of a receive buffer, ones, a lone
+    // byte): single-bit errors in the checksum and a sample elsewhere
+    {
+        let crc0 = nbits - 24;
+        let mut positions: Vec<usize> = (crc0..nbits).collect();
+        for _ in 0..8 {
+            positions.push(*rng.pick(&pos));
+        }
+        for a in positions {
+            let mut d = f.to_vec();
+            bits::flip_bit(&mut d, a);
+            for sfx in [&[0x00u8][..], &[0xFF], &[0x01], &[0x80], &[0, 0, 0, 0], &[0xFF, 0xFF, 0xFF, 0xFF], &[0xD3]] {
+                let mut e = d.clone();
+                e.extend_from_slice(sfx);
+                c04_observe(ctx, &e, "single_bit_with_bytes_behind_the_frame", || json!({"bits":[a],"suffix":sfx}));
+            }
+        }
+    }
     // runs of damaged copies in one buffer: every ordered pair of single-bit errors in the checksum, pairs of a
     // checksum error with an error elsewhere (both orders), and runs of three
     {
